@@ -14,6 +14,10 @@ import (
 type baseObj struct {
 	term string     // oid term
 	typ  types.Type // allocated type (struct/array type, or the element type of a slice backing store)
+	// escaped: the object's address was handed out before the write. Cells of such an object can be reachable from
+	// the heap, so a spec application is independent of them only if no pointer type reachable from the types of its
+	// arguments can point into an object of this type (typeReaches).
+	escaped bool
 }
 
 type heapBase struct {
